@@ -14,7 +14,7 @@ if ! git apply "$patch" 2>/tmp/confirm/$name.apply.err && ! { git apply --3way "
   echo "{\"name\":\"$name\",\"applies\":false}" > $res; cd /; git -C /repo worktree remove --force "$wt"; exit 3
 fi
 timeout 300 $PY "$demo" > /tmp/confirm/$name.demo_mut.log 2>&1; d1=$?
-$PY -m pytest tests performance -q -p no:cacheprovider --timeout=300 --continue-on-collection-errors --junitxml=/tmp/confirm/$name.junit.xml > /tmp/confirm/$name.pytest.log 2>&1
+$PY -m pytest tests performance -n 6 -q -p no:cacheprovider --timeout=300 --continue-on-collection-errors --junitxml=/tmp/confirm/$name.junit.xml > /tmp/confirm/$name.pytest.log 2>&1
 /verif/tools_suite_compare.py /tmp/confirm/$name.junit.xml > /tmp/confirm/$name.cmp.txt 2>&1
 # re-run failing stable tests individually (flaky network tests)
 still=0
